@@ -65,19 +65,14 @@ class ABADecomposer(Decomposer, ABC):
             if abs(a_axis_value) < ATOL:
                 theta2 = math.pi
                 p = 0.0
-                m = math.copysign(2 * math.acos(b_axis_value), c_axis_value)
+                m = 2 * math.atan2(c_axis_value, b_axis_value)
             else:
                 p = math.pi
                 theta2 = 2 * math.acos(a_axis_value)
                 if abs(a_axis_value - 1) < ATOL or abs(a_axis_value + 1) < ATOL:
                     m = p  # This can be anything, but setting m = p means theta3 == 0, which is better for gate count.
                 else:
-                    acos_argument = float(b_axis_value) / math.sqrt(1 - a_axis_value**2)
-
-                    # This fixes float approximations like 1.0000000000002, which acos does not like.
-                    acos_argument = max(min(acos_argument, 1.0), -1.0)
-                    m = 2 * math.acos(acos_argument)
-                    m = math.copysign(m, c_axis_value)
+                    m = 2 * math.atan2(c_axis_value, b_axis_value)
 
         else:
             p = 2 * math.atan2(a_axis_value * math.sin(alpha / 2), math.cos(alpha / 2))
@@ -92,12 +87,7 @@ class ABADecomposer(Decomposer, ABC):
             if abs(math.sin(theta2 / 2)) < ATOL:
                 m = p  # This can be anything, but setting m = p means theta3 == 0, which is better for gate count.
             else:
-                acos_argument = float(b_axis_value) * math.sin(alpha / 2) / math.sin(theta2 / 2)
-
-                # This fixes float approximations like 1.0000000000002, which acos does not like.
-                acos_argument = max(min(acos_argument, 1.0), -1.0)
-                m = 2 * math.acos(acos_argument)
-                m = math.copysign(m, c_axis_value)
+                m = 2 * math.atan2(c_axis_value, b_axis_value)
 
         is_sin_m_negative = self.index_a - self.index_b in (-1, 2)
         if is_sin_m_negative:
